@@ -49,7 +49,7 @@ Definition h_substr (st : store) (h : handle) (s e : nat) : option (store * hand
 
 (* detach consumes its handle *)
 Definition h_detach (st : store) (h : handle) : store * handle :=
-  if strong (sget st (hptr h)) =? 1 then (st, h)
+  if (strong (sget st (hptr h)) =? 1) && (hstart h =? 0) then (st, h)
   else
     let c := detach false (view st h) in
     let '(st1, p) := alloc (decr st (hptr h)) (cdata c) false in
